@@ -44,6 +44,9 @@ VARIABLES case
 Cases ==
     {[k |-> "convert", a |-> a, b |-> b, c |-> c, v |-> v] : a \in UnitNames, b \in UnitNames, c \in UnitNames, v \in Values}
     \cup {[k |-> "convert", a |-> a, b |-> b, c |-> c, v |-> v] : a \in Tree2, b \in Tree2, c \in Tree2, v \in Values}
+    \* "user-defined unit chains of any depth": a chain of n units, the factors alternating 2 and 1/2 (n even: the deepest
+    \* unit measures the same as the root), converted from the deepest unit to the root and back
+    \cup {[k |-> "deep", n |-> n, v |-> v] : n \in {40, 1500, 6000}, v \in {Q(5, 2), Q(-3, 1)}}
     \cup {[k |-> "sonar_pw", us |-> Q(us, 1), b |-> b] : us \in {0, 147, 1470, 5880, 37500}, b \in {"inch", "centimeter", "meter", "foot"}}
     \cup {[k |-> "sonar_an", mv |-> Q(mv, 1), b |-> b] : mv \in {0, 49, 980, 2450, 4999}, b \in {"inch", "centimeter", "meter", "foot"}}
     \cup {[k |-> "pressure", v |-> Q(v, 1000), vcc |-> Q(vcc, 10)] : v \in {-500, 0, 1, 500, 2500, 4500, 5000, 7500}, vcc \in {0, 33, 50}}
@@ -60,6 +63,7 @@ Expected(c) ==
     CASE c.k = "convert"  -> Convert(c.a, c.b, c.v)
       [] c.k = "sonar_pw" -> Convert("inch", c.b, SonarInches(c.us))
       [] c.k = "sonar_an" -> Convert("centimeter", c.b, SonarCm(c.mv))
+      [] c.k = "deep" -> c.v
       [] c.k = "pressure" -> Pressure(c.v, c.vcc)
       [] c.k \in {"calib", "recalib"} -> Pressure(c.vo, Calibrated(c.vo, c.p))
 
